@@ -354,3 +354,16 @@ def s2_trace_tensors():
     if bad:
         return f"tracer self-check failed for {bad} (printed expression != what the Python function computes)"
     return None
+
+
+def s2_trace_gbs():
+    """PRE_LEAN hook of C09: re-trace utils.apply_gbs on symbolic textures of 2 and 3 grains (every outcome of the mask comparisons)
+    and rewrite lean/Generated/TracedGbs.lean (bridge theorems: lean/Bridge/Gbs.lean)."""
+    from .trace import tracer
+
+    traced = tracer.trace_gbs()
+    tracer.emit_gbs(traced)
+    bad = tracer.selfcheck_gbs(traced)
+    if bad:
+        return f"tracer self-check failed for n = {bad} (printed expression != what the Python function computes)"
+    return None
